@@ -33,7 +33,7 @@ pub fn run(tape: &[u8], cx: &Cx) -> Outcome {
     let (ta, tb) = tape.split_at(tape.len() / 3);
     let mut t = Tape::new(ta);
     let mut tp = Tape::new(tb);
-    let prog = Prog::decode(&mut tp, &cfg());
+    let prog = Prog::decode(&mut tp, &cfg().scaled(cx.thorough));
     let mut o = Outcome::default();
     o.digest = fnv(&prog.digest_bytes());
     let RxCase { prog, mut mgr, terms, dfas } = match rx::setup(prog.clone()) {
@@ -51,8 +51,10 @@ pub fn run(tape: &[u8], cx: &Cx) -> Outcome {
         Some(d) => d,
         None => return Outcome::discarded("reference DFA too big"),
     };
-    let last = prog.ins.len() - 1;
-    // examine the final slot and, sometimes, a derived term (a derivative of it)
+    // examine the final slot or (half of the time) the slot with the most derivative classes, and
+    // sometimes a derived term (a derivative of it)
+    let richest = (0..prog.ins.len()).max_by_key(|&i| (terms[i].num_deriv_classes(), i)).unwrap();
+    let last = if t.flag() { richest } else { prog.ins.len() - 1 };
     let mut e = terms[last];
     let dfa = &dfas[last];
     let mut q0 = dfa.start;
